@@ -230,12 +230,58 @@ func (c *Ctx) isCompletion(in ssa.Instruction) bool {
 
 // isRequestWrite: the socket write that puts a request on the wire.
 func (c *Ctx) isRequestWrite(in ssa.Instruction) bool {
-	w := c.ws()
+	_, ok := c.requestWritePayload(in)
+	return ok
+}
+
+// requestWritePayload: `in` writes a wire request to the socket (a write-side call on the gorilla
+// connection whose payload is a value of the request type); returns that payload value.
+func (c *Ctx) requestWritePayload(in ssa.Instruction) (ssa.Value, bool) {
 	ci, ok := in.(ssa.CallInstruction)
-	if !ok || w.SendReq == nil || in.Parent() != w.SendReq {
-		return false
+	if !ok || c.R.TReq == nil {
+		return nil, false
 	}
-	return strings.HasPrefix(calleeName(ci), "(*"+gorilla+".Conn).") && gorillaWriteSide[methodOf(ci)]
+	if !strings.HasPrefix(calleeName(ci), "(*"+gorilla+".Conn).") || !gorillaWriteSide[methodOf(ci)] {
+		return nil, false
+	}
+	for _, a := range ci.Common().Args {
+		mi, ok := a.(*ssa.MakeInterface)
+		if !ok {
+			continue
+		}
+		t := mi.X.Type()
+		if pt, ok := t.Underlying().(*types.Pointer); ok {
+			t = pt.Elem()
+		}
+		if t == types.Type(c.R.TReq) {
+			return mi.X, true
+		}
+	}
+	return nil, false
+}
+
+// liftValue: a value used at instruction `at`; when it is (a copy of) a parameter of the
+// enclosing function, it stands for the argument passed at each synchronous call site
+// (recursively): one (site, argument) pair per calling context.
+func (c *Ctx) liftValue(at ssa.Instruction, v ssa.Value, depth int) []siteVal {
+	fn := at.Parent()
+	idx := -1
+	for i, q := range fn.Params {
+		if v == ssa.Value(q) || c.isParamCopy(v, q) {
+			idx = i
+		}
+	}
+	sites := c.P.syncCallers(fn)
+	if idx < 0 || len(sites) == 0 || depth > ipMaxDepth || c.P.asyncValueUsed(fn) {
+		return []siteVal{{At: at, Val: v}}
+	}
+	var out []siteVal
+	for _, s := range sites {
+		if idx < len(s.Common().Args) {
+			out = append(out, c.liftValue(s, s.Common().Args[idx], depth+1)...)
+		}
+	}
+	return out
 }
 
 // redialSpawns: go statements starting a goroutine that (transitively) installs a new socket.
@@ -298,7 +344,7 @@ func runC03(c *Ctx) {
 	c.enqueueRule("R03.5")
 
 	// ---- R03.6
-	if arm, ok := w.Arms["requests"]; ok && arm.Body != nil && c.needWS("R03.6", "sendReq", w.SendReq) {
+	if arm, ok := w.Arms["requests"]; ok && arm.Body != nil {
 		blocks := armBlocks(arm)
 		construct := fmt.Sprintf("%s: request-accept arm", fname(loop))
 		isRegister := c.isRegisterInflight
@@ -485,6 +531,75 @@ func (c *Ctx) mailboxRule(rule string) {
 	}
 	if n == 0 {
 		c.und(rule, "mailbox construction", "-", "no store to the mailbox field found")
+	}
+	// every request handed to the connection loop brings a mailbox of its own: the loop answers each
+	// queued request on that request's mailbox, so two queued requests sharing one would let a call
+	// take the answer meant for the other (e.g. the acknowledgement of its own cancel notification)
+	type enq struct {
+		at   ssa.Instruction
+		mbox []apath
+	}
+	var enqs []enq
+	isReqChan := func(v ssa.Value) bool {
+		ch, ok := v.Type().Underlying().(*types.Chan)
+		return ok && ch.Elem() == types.Type(r.TCreq)
+	}
+	for _, fn := range p.Funcs {
+		if pkgOf(fn) != p.Root.Pkg {
+			continue
+		}
+		allInstrsRaw(fn, func(in ssa.Instruction) {
+			var sent ssa.Value
+			switch x := in.(type) {
+			case *ssa.Send:
+				if isReqChan(x.Chan) {
+					sent = x.X
+				}
+			case *ssa.Select:
+				for _, st := range x.States {
+					if st.Dir == types.SendOnly && isReqChan(st.Chan) {
+						sent = st.Send
+					}
+				}
+			}
+			if sent != nil {
+				enqs = append(enqs, enq{in, c.originsDyn(sent, r.FReady)})
+			}
+		})
+	}
+	for i, e := range enqs {
+		construct := fmt.Sprintf("%s: mailbox of the queued request", fname(e.at.Parent()))
+		fresh := len(e.mbox) > 0
+		for _, o := range e.mbox {
+			if _, ok := o.Root.(*ssa.MakeChan); !ok || len(o.Fields) != 0 {
+				fresh = false
+			}
+		}
+		shared := false
+		for j, f := range enqs {
+			if i == j || e.at == f.at {
+				continue
+			}
+			for _, a := range e.mbox {
+				for _, b := range f.mbox {
+					if a.Root == b.Root && len(a.Fields) == 0 && len(b.Fields) == 0 {
+						shared = true
+					}
+				}
+			}
+		}
+		switch {
+		case !fresh:
+			var ps []string
+			for _, o := range e.mbox {
+				ps = append(ps, c.fmtPath(o))
+			}
+			c.bad(rule, construct, c.ipos(e.at), "a request is queued whose mailbox is not a channel made for it (origins: "+strings.Join(ps, "; ")+")")
+		case shared:
+			c.bad(rule, construct, c.ipos(e.at), "two different requests are queued with the same mailbox: the answer to one (e.g. the acknowledgement of a cancel notification) is taken by the call waiting for the other, which returns a foreign reply while its own arrives later and is lost")
+		default:
+			c.ok(rule, construct, c.ipos(e.at), "own freshly made mailbox")
+		}
 	}
 }
 
